@@ -1,0 +1,6 @@
+//go:build !verif
+
+package memberlist
+
+// verifPoint is a no-op unless built with `-tags verif` (see verif_on.go).
+func verifPoint(*Memberlist, string) {}
